@@ -118,6 +118,20 @@ pub fn eval(c: &Case) -> Eval {
         Ok(Ok(b2)) => ensure!(b2.get_m() == 7 && b2.get_q() == 9 && b2.get_a() == 2.0 && b2.get_b() == 1.5, "after overwriting the dump with new parameters, reload returns {:?}", b2),
         other => return Err(Fail::new(format!("reload after overwriting the dump failed: {:?}", other.map(|r| r.map(|_| ()))))),
     }
+    // a dump of parameters that differ only slightly from what the directory already holds must replace them too
+    ensure!(matches!(catch(|| p.dump_json(&dir.0)), Ok(Ok(()))), "third dump_json into the same directory failed");
+    let near = SetSketchParams::new(next_up(c.b.0), c.m, c.a.0 * (1.0 + 1e-12), c.q);
+    ensure!(matches!(catch(|| near.dump_json(&dir.0)), Ok(Ok(()))), "dump_json of slightly different parameters failed");
+    match catch(|| SetSketchParams::reload_json(&dir.0)) {
+        Ok(Ok(b3)) => {
+            float_ok("b (re-dumped one ulp above the previous dump)", near.get_b(), b3.get_b())?;
+            float_ok("a (re-dumped 1e-12 relative above the previous dump)", near.get_a(), b3.get_a())?;
+        }
+        other => return Err(Fail::new(format!("reload after re-dumping slightly different parameters failed: {:?}", other.map(|r| r.map(|_| ()))))),
+    }
+    // restore the original dump for the crash-point enumeration
+    ensure!(matches!(catch(|| p.dump_json(&dir.0)), Ok(Ok(()))), "dump_json failed");
+    let bytes = std::fs::read(&file).map_err(|e| Fail::new(format!("cannot read back the dump: {}", e)))?;
     // every strict prefix as crash point
     for cut in 0..bytes.len() {
         std::fs::write(&file, &bytes[..cut]).map_err(|e| Fail::new(format!("harness: cannot write: {}", e)))?;
